@@ -82,14 +82,19 @@ def cases(run, rng):
         ctx = qc.SQL_CONTEXT
         aq = ctx.alias_quote_char or ctx.quote_char
         AL = ' %sal%s' % (aq, aq)
+        t = P.Table("t")
+        bnd = termzoo.boundary(t)
+        entries = []
         for cls in classes:
+            entries.append((cls, (lambda cls=cls: termzoo.make(cls, t))))
+            for f in bnd.get(cls.__name__, []):
+                entries.append((cls, f))      # boundary instances of the class: empty containers, empty / zero constants, no arguments
+        for cls, mk in entries:
             cn = cls.__name__
             if cn in termzoo.ABSTRACT or cn in NO_ALIAS:
                 continue
             if cn == "_SetOperation" and qc is not P.Query:
                 continue      # (a generic set operation keeps its own class's quote character inside another dialect: C08, not judged here)
-            t = P.Table("t")
-            mk = lambda: termzoo.make(cls, t)  # noqa
             if mk() is None:
                 if cn not in MISSING:
                     MISSING.append(cn)
@@ -186,6 +191,13 @@ def cases(run, rng):
                 q = ctx.quote_char
                 if not s2.startswith("EXC") and (" GROUP BY %samount%s" % (aq, aq) in s2 or " ORDER BY %samount%s" % (aq, aq) in s2):
                     record("alias-ref", "Field", "alias removed from the select list by select(table.*)", qc, s2, "GROUP BY %stotal%s" % (q, q))
+                # aliases that differ only in letter case are different names: an alias reference needs the exact alias in the select list
+                g3 = (qc.from_(t).select(T.Field("label", table=t).as_("Kind"), zq).groupby(T.Field("category", table=t).as_("kind"))
+                      .orderby(T.Field("other", table=t).as_("KIND")))
+                s3 = sql(g3, ctx)
+                if not s3.startswith("EXC") and (" GROUP BY %scategory%s" % (q, q) not in s3 or " ORDER BY %sother%s" % (q, q) not in s3):
+                    record("alias-ref", "Field", "an alias that only matches a select alias when letter case is ignored", qc, s3,
+                           "GROUP BY %scategory%s ORDER BY %sother%s" % (q, q, q, q))
             except Exception:
                 pass
             yield {"label": "zoo:%s" % cn, "corr": corr[:6], "expr": "1", "known": None, "describe": {}}
